@@ -2,18 +2,17 @@ SPECIFICATION Spec
 CONSTANTS
   M = 8
   MaxLines = 4
-  PostErr = 0
+  PostErr = 1
   Drift = 6
   Future = 4
   Alpha = "core"
   MixedTerm = FALSE
   Finding1 = FALSE
-  Finding2 = TRUE
+  Finding2 = FALSE
 INVARIANT TypeOK
 INVARIANT NothingBeforeTheEnd
 INVARIANT RejectedStoresNothing
 INVARIANT ItemsEqualStored
 INVARIANT StoredOnceInOrder
-INVARIANT ImplMeetsProperty
-INVARIANT Emit
+INVARIANT ImplMeetsPropertyStrict
 PROPERTY StoreOnlyAtFinish
